@@ -45,6 +45,7 @@ type Solver struct {
 	Queries int64
 	TimeNs  int64
 	dead    bool
+	last    string
 }
 
 var (
@@ -54,6 +55,7 @@ var (
 	gUnsat     int64
 	gUnknown   int64
 	gSolverErr int64
+	gSolverHung int64
 )
 
 func NewSolver(kind SolverKind, timeoutMs int) (*Solver, error) {
@@ -100,6 +102,9 @@ func (s *Solver) send(cmd string) {
 	if s.log != nil {
 		io.WriteString(s.log, cmd+"\n")
 	}
+	if strings.HasPrefix(cmd, "(assert") {
+		s.last = cmd
+	}
 	if _, err := io.WriteString(s.in, cmd+"\n"); err != nil {
 		s.dead = true
 	}
@@ -111,26 +116,53 @@ func (s *Solver) Send(cmds ...string) {
 	}
 }
 
-// sync sends an echo marker and returns all output lines before it.
+// sync sends an echo marker and returns all output lines before it.  A
+// solver that does not answer within 3x its per-query timeout (+10 s) is
+// killed; the query is then inconclusive.
 func (s *Solver) sync() []string {
+	if s.dead {
+		return []string{"(error \"solver dead\")"}
+	}
 	s.seq++
 	mark := fmt.Sprintf("@@%d", s.seq)
 	s.send(fmt.Sprintf("(echo \"%s\")", mark))
-	var lines []string
-	for {
-		line, err := s.out.ReadString('\n')
-		line = strings.TrimRight(line, "\r\n")
-		if strings.Trim(line, "\"") == mark {
-			return lines
+	type result struct{ lines []string }
+	ch := make(chan result, 1)
+	go func() {
+		var lines []string
+		for {
+			line, err := s.out.ReadString('\n')
+			line = strings.TrimRight(line, "\r\n")
+			if strings.Trim(line, "\"") == mark {
+				ch <- result{lines}
+				return
+			}
+			if line != "" {
+				lines = append(lines, line)
+			}
+			if err != nil {
+				lines = append(lines, "(error \"solver died\")")
+				ch <- result{lines}
+				return
+			}
 		}
-		if line != "" {
-			lines = append(lines, line)
+	}()
+	limit := time.Duration(3*s.timeout+10000) * time.Millisecond
+	select {
+	case r := <-ch:
+		for _, l := range r.lines {
+			if strings.Contains(l, "solver died") {
+				s.dead = true
+			}
 		}
-		if err != nil {
-			s.dead = true
-			lines = append(lines, "(error \"solver died\")")
-			return lines
+		return r.lines
+	case <-time.After(limit):
+		s.dead = true
+		if s.cmd != nil && s.cmd.Process != nil {
+			s.cmd.Process.Kill()
 		}
+		atomic.AddInt64(&gSolverHung, 1)
+		return []string{"(error \"solver hung; killed\")"}
 	}
 }
 
@@ -152,6 +184,9 @@ func (s *Solver) CheckSat() Verdict {
 	d := time.Since(t0).Nanoseconds()
 	s.Queries++
 	s.TimeNs += d
+	if d > 400e6 && os.Getenv("GOSYM_SLOW") != "" {
+		fmt.Fprintf(os.Stderr, "SLOW %.1fs after: %s\n", float64(d)/1e9, s.last)
+	}
 	atomic.AddInt64(&gQueries, 1)
 	atomic.AddInt64(&gSolverNs, d)
 	v := Unknown
